@@ -33,6 +33,8 @@ type hdRecipient struct {
 	U  int      `json:"u,omitempty"`
 }
 
+const hdChatRefreshTag = 77
+
 type hdOp struct {
 	K string `json:"k"`
 	C int    `json:"c,omitempty"`
@@ -428,6 +430,11 @@ func (r *hdRun) exec(o *hdOp) string {
 		}
 		rec, rterm := r.recipient(o.To)
 		payload := map[string]interface{}{"tag": o.Tag}
+		if o.Tag == hdChatRefreshTag {
+			// a chat-refresh notice (Coq: CHAT_REFRESH_TAG): repeated ones are merged while the receiver is disconnected
+			payload["type"] = "chat"
+			payload["chat"] = map[string]interface{}{"refresh": true}
+		}
 		inner := map[string]interface{}{"recipient": rec, "data": payload}
 		if o.FS > 0 {
 			inner["sender"] = map[string]interface{}{"type": "session", "sessionid": r.pub[o.FS], "userid": "forged"}
